@@ -121,14 +121,18 @@ Mutate(e, m) ==
 VARIABLES phase, n, k, m
 vars == <<phase, n, k, m>>
 
-(* One initial state; choosing the case is a step, so that TLC's workers    *)
-(* evaluate the cases (and their laws) in parallel.                         *)
+(* One initial state; choosing the case and then evaluating it are two     *)
+(* steps, so that the cases (and their laws) are spread over TLC's workers: *)
+(* a worker checks the invariants of the successors it generates.           *)
 Init == phase = "start" /\ n = 0 /\ k = "zero" /\ m = "none"
 Pick == /\ phase = "start"
-        /\ phase' \in {"enc", "dec"}
-        /\ \/ (phase' = "enc" /\ n' \in EncLens /\ k' \in Kinds /\ m' = "none")
-           \/ (phase' = "dec" /\ n' \in DecBases /\ k' \in {"count", "zero"} /\ m' \in Mutations)
-Next == Pick
+        /\ phase' \in {"pick-enc", "pick-dec"}
+        /\ \/ (phase' = "pick-enc" /\ n' \in EncLens /\ k' \in Kinds /\ m' = "none")
+           \/ (phase' = "pick-dec" /\ n' \in DecBases /\ k' \in {"count", "zero"} /\ m' \in Mutations)
+Eval == /\ phase \in {"pick-enc", "pick-dec"}
+        /\ phase' = (IF phase = "pick-enc" THEN "enc" ELSE "dec")
+        /\ UNCHANGED <<n, k, m>>
+Next == Pick \/ Eval
 Spec == Init /\ [][Next]_vars
 
 In == Pattern(k, n)
@@ -144,7 +148,7 @@ TickSame == (phase = "dec" /\ m = "tick") => Dec(DecIn) = Dec(IF E = <<>> THEN <
 CRLFSame == (phase = "dec" /\ m = "crlf") => Dec(DecIn) = Dec(IF E = <<>> THEN <<96, 10>> ELSE E)
 
 EmitCase ==
-  \/ ~Emit \/ phase = "start"
+  \/ ~Emit \/ phase \notin {"enc", "dec"}
   \/ IF phase = "enc"
      THEN PrintT(<<"CASE", ToJson([phase |-> "enc", kind |-> k, n |-> n, input |-> In, enc |-> E,
                                    maxenc |-> MaxEncodedLen(n), maxdec |-> MaxDecodedLen(Len(E))])>>)
